@@ -254,7 +254,7 @@ func init() {
 	registerConc(concCheck{
 		id: "C34", scenarios: c34Scenarios, boundQ: 2, boundT: 3, quick: 100 * time.Second, thorough: 15 * time.Minute, minOutcomes: 2,
 		sequential: c34Sequential,
-		rule:       "HASH_LOGS=ASYNC; (A) SEQUENTIAL start states (evidence field `sequential`): every history of <= depth steps (quick 3, thorough 4) over {import of 5 exported logs through the real Import, single write, atomic bulk, non-atomic bulk, builder run} on a pristine ledger x every max block size of the menu, then a final run of the real AsyncBlockRunner (ledger listing, pagination, processLedger, create_blocks) and the oracle below -- this covers the imported-and-untouched ledger (committed logs, state still `initializing`), imported-then-written, bulk-only and pristine ledgers, with and without builder runs in between; plus a FLEET of 17 ASYNC ledgers (> one page of the builder's listing) over two buckets in cycled start states and one SYNC ledger: one builder run, oracle on each ASYNC ledger; (B) CONCURRENT: 3 scenarios (two writers on disjoint accounts || the block builder; one writer of two logs || two block builders with block size 1; two metadata writers || the builder); the builder thread runs the real AsyncBlockRunner (its cron loop with a one-shot schedule) which calls the create_blocks/create_block procedures executed from the migration text; every schedule with <= bound preemptions; oracle after a final builder run at quiescence: blocks chain on `previous`, (from_id, to_id] ranges are contiguous, no block range is empty, every committed log id is covered exactly once, each stored hash == sha256 over the text `previous hash || type||encode(memento,'escape')||date||idempotency key||id ...` recomputed in Go from the committed logs of the range",
+		rule:       "HASH_LOGS=ASYNC; (A) SEQUENTIAL start states (evidence field `sequential`): every history of <= depth steps (quick 3, thorough 4) over {import of 5 exported logs through the real Import, single write, atomic bulk, non-atomic bulk, builder run, and three steps that BURN log ids (nextval is never rolled back): a dryRun write (1 id), an atomic bulk whose third element fails after two elements inserted their log (2 ids), a write whose first log INSERT is reported as a deadlock victim after it ran and that the ledger retries (1 id, then a committed log)} on a pristine ledger x every max block size of the menu (quick 1,2,10; thorough 1,2,3,10) -- so the committed log ids have holes of 1, 2, 3.. unused ids, shorter than / equal to / longer than the block size, before, between and after builder runs (evidence fields `id_holes_by_max_block_size`, `id_holes_by_sole_burner_kind`) --, then a final run of the real AsyncBlockRunner (ledger listing, pagination, processLedger, create_blocks) and the oracle below -- this covers the imported-and-untouched ledger (committed logs, state still `initializing`), imported-then-written, bulk-only and pristine ledgers, with and without builder runs in between; plus a FLEET of 17 ASYNC ledgers (> one page of the builder's listing) over two buckets in cycled start states and one SYNC ledger: one builder run, oracle on each ASYNC ledger; (B) CONCURRENT: 3 scenarios (two writers on disjoint accounts || the block builder; one writer of two logs || two block builders with block size 1; two metadata writers || the builder); the builder thread runs the real AsyncBlockRunner (its cron loop with a one-shot schedule) which calls the create_blocks/create_block procedures executed from the migration text; every schedule with <= bound preemptions; oracle after a final builder run at quiescence: blocks chain on `previous`, (from_id, to_id] ranges are contiguous, no block range is empty, every committed log id is covered exactly once, each stored hash == sha256 over the text `previous hash || type||encode(memento,'escape')||date||idempotency key||id ...` recomputed in Go from the committed logs of the range",
 	}, reg.Register)
 }
 
